@@ -105,8 +105,13 @@ def restore(root: Path, bak: Path):
     shutil.copytree(bak, root, symlinks=True)
 
 
-def inproc_pair(root: Path, kw_dry: dict, kw_real: dict, hashseed: int):
+def inproc_pair(root: Path, kw_dry: dict, kw_real: dict, hashseed: int, objects: bool = False):
     """dry run and real build in ONE fresh interpreter (the property does not say 'in a fresh process')"""
+    return inproc_builds(root, [kw_dry, kw_real], hashseed, objects)
+
+
+def inproc_builds(root: Path, kws: list, hashseed: int, objects: bool = False):
+    """the given builds, one after the other, in ONE fresh interpreter"""
     import json
     import subprocess
     import tempfile
@@ -114,7 +119,7 @@ def inproc_pair(root: Path, kw_dry: dict, kw_real: dict, hashseed: int):
     os.close(fd)
     try:
         env = dict(os.environ, PYTHONHASHSEED=str(hashseed), PYTHONDONTWRITEBYTECODE="1")
-        r = subprocess.run([common.PY, str(SEQ_WORKER), str(root), json.dumps([kw_dry, kw_real]), out], env=env, cwd="/",
+        r = subprocess.run([common.PY, str(SEQ_WORKER), str(root), json.dumps(kws), out] + (["objects"] if objects else []), env=env, cwd="/",
                            capture_output=True, text=True, timeout=300)
         try:
             res = json.loads(Path(out).read_text())
@@ -221,6 +226,82 @@ def run_prov_twin(server, hist):
         return {"records": records, "twin": twin}
     finally:
         shutil.rmtree(root, ignore_errors=True)
+
+
+MARK_SRC = {"try_first": 'Mark("try_first", (), {})', "try_last": 'Mark("try_last", (), {})', "persist": 'Mark("persist", (), {})',
+            "skip": 'Mark("skip", (), {})', "skipif_false": 'Mark("skipif", (False,), {"reason": "cond false"})',
+            "skipif_true": 'Mark("skipif", (True,), {"reason": "cond true"})'}
+
+
+def render_objects_module(spec) -> str:
+    """A plain (non-task) module whose `make()` returns one PTask OBJECT per task of the spec: `TaskWithoutPath(...)` or `Task(...)`
+    instances built by hand (PathNode dependencies / products, marks as Mark objects) — not functions to be collected."""
+    L = ["from pathlib import Path", "from pytask import Mark, PathNode, Task, TaskWithoutPath", "import _verif_rt as rt",
+         "DATA = Path(__file__).resolve().parent / 'data'", "SRC = 7", ""]
+    items = []
+    for t in spec["tasks"]:
+        tid = t["id"]
+        dn = [f"d{n}" for n in t["deps"]]
+        pn = [f"p{i}" for i in range(len(t["prods"]))]
+        L.append(f"def f{tid:02d}({', '.join(dn + pn)}):")
+        L.append(f"    return rt.body({tid}, SRC, [{', '.join(dn)}], [{', '.join(pn)}], {t.get('beh', 'ok')!r})")
+        L.append("")
+        deps = "{" + ", ".join(f"'{a}': PathNode(path=DATA / 'n{n}.txt')" for a, n in zip(dn, t["deps"])) + "}"
+        prods = "{" + ", ".join(f"'{a}': PathNode(path=DATA / 'n{n}.txt')" for a, n in zip(pn, t["prods"])) + "}"
+        marks = "[" + ", ".join(MARK_SRC[m] for m in t.get("marks", []) if m in MARK_SRC) + "]"
+        name = project.tname(tid)
+        if t.get("objkind") == "task":
+            items.append(f"Task(base_name={name!r}, path=Path(__file__), function=f{tid:02d}, depends_on={deps}, produces={prods}, markers={marks})")
+        else:
+            items.append(f"TaskWithoutPath(name={name!r}, function=f{tid:02d}, depends_on={deps}, produces={prods}, markers={marks})")
+    L.append("def make():")
+    L.append("    return [" + ",\n            ".join(items) + "]")
+    return "\n".join(L) + "\n"
+
+
+def run_obj_twin(server, hist):
+    """Programmatic task OBJECTS handed to `pytask.build(tasks=[...])`. Every prefix build runs in its own interpreter; then
+    A: dry run and build in ONE interpreter over the SAME objects, B: the build alone (own interpreter, fresh objects) from the restored
+    state. Implementation only. (The file snapshot around the dry run is taken by the other streams; here dry run and build share a process.)"""
+    root = common.scratch_dir("c10o")
+    bak = Path(str(root) + "_bak")
+    clock = project.Clock()
+    spec = copy.deepcopy(hist["spec"])
+
+    def builds(cfgs):
+        (root / ".verif_log").unlink(missing_ok=True)
+        return inproc_builds(root, [builder.cfg_to_kw(c) for c in cfgs], server.hashseed, objects=True)
+    try:
+        root.mkdir(parents=True, exist_ok=True)
+        (root / "pyproject.toml").write_text("[tool.pytask.ini_options]\n")
+        (root / "_verif_rt.py").write_text(project.RT)
+        (root / "data").mkdir(exist_ok=True)
+        project.write_file(root / "verif_objs.py", render_objects_module(spec), clock)
+        for n, c in spec.get("inputs", {}).items():
+            project.write_file(project.node_path(root, int(n)), str(c), clock)
+        records = []
+        for step in hist["steps"]:
+            rec = {"step": step}
+            if step[0] == "build":
+                rec.update({"cfg": step[1], "obs": builds([step[1]])[0]})
+            else:
+                apply_edit(root, spec, clock, step)          # write / touch / delete only
+            records.append(rec)
+        cfg = dict(hist["twin"])
+        cfg.pop("dry", None)
+        (root / ".verif_log").unlink(missing_ok=True)
+        shutil.copytree(root, bak, symlinks=True)
+        files0, _ = snapshot(root)
+        d, a = builds([dict(cfg, dry=True), cfg])
+        restore(root, bak)
+        files2, _ = snapshot(root)
+        b = builds([cfg])[0]
+        twin = {"cfg": cfg, "spec": copy.deepcopy(spec), "dry": {"obs": d}, "a": {"obs": a}, "b": {"obs": b}, "dry_file_changes": [],
+                "restore_changes": snapshot_diff(files0, files2), "dirs_created_by_dry": [], "nfiles": len(files0)}
+        return {"records": records, "twin": twin}
+    finally:
+        shutil.rmtree(root, ignore_errors=True)
+        shutil.rmtree(bak, ignore_errors=True)
 
 
 def parse_answer(ans: str):
